@@ -207,6 +207,11 @@ class Lib:
         np["where"] = LibFunc("np.where", self.np_where)
         np["arange"] = LibFunc("np.arange", self.np_arange)
         np["full"] = LibFunc("np.full", self.np_full)
+        # function forms of the array reductions (np.min(a, axis=0) = a.min(axis=0), ...): the same contracts as the methods
+        for _nm, _meth in (("min", "min"), ("amin", "min"), ("max", "max"), ("amax", "max"), ("all", "all"), ("any", "any")):
+            np.setdefault(_nm, LibFunc("np." + _nm, (lambda i, a, *args, _m=_meth, **kw: self.arr_method(i, _arr(a, i), _m, list(args), kw))))
+        np.setdefault("isin", LibFunc("np.isin", self.np_isin))
+        np.setdefault("stack", LibFunc("np.stack", self.np_stack))
         np["full_like"] = LibFunc("np.full_like", self.np_full_like)
         np["power"] = LibFunc("np.power", lambda i, a, b: i.binop("**", a, b))
         np["int32"] = DType("int32")
@@ -538,6 +543,57 @@ class Lib:
         if as_float:
             return A.new_arr((n,), lambda idx: sv.to_real(fn(idx)), dt)
         return A.new_arr((n,), fn, dt)
+
+    def np_isin(self, interp, element, test_elements, **kw):
+        """np.isin(a, values) for a finite Python collection of values: elementwise  OR_k a[idx] == values[k]"""
+        if kw:
+            raise EngineError("np.isin with options")
+        a = _arr(element, interp)
+        vals = [norm(v) for v in interp.iter_concrete(test_elements)]
+        r = a.reader()
+
+        def fn(idx):
+            x = r(idx)
+            return sv.or_(*[sv.cmp("==", x, v) for v in vals]) if vals else False
+        return A.new_arr(tuple(a.shape), fn, "bool")
+
+    def np_stack(self, interp, arrays, axis=0, **kw):
+        """np.stack of k arrays of equal shape along a new axis (concrete k): out[.., j, ..] = arrays[j][..]"""
+        if kw:
+            raise EngineError("np.stack with options")
+        arrs = [_arr(x, interp) for x in interp.iter_concrete(arrays)]
+        if not arrs:
+            raise EngineError("np.stack of nothing")
+        nd = arrs[0].ndim
+        for b in arrs[1:]:
+            if b.ndim != nd:
+                raise EngineError("np.stack rank mismatch")
+            for x, y in zip(arrs[0].shape, b.shape):
+                A.require_dim_eq(x, y, "stack")
+        ax = norm(axis)
+        if not isinstance(ax, int) or isinstance(ax, bool):
+            raise EngineError("np.stack axis")
+        if ax < 0:
+            ax += nd + 1
+        if not 0 <= ax <= nd:
+            raise EngineError("np.stack axis out of range")
+        readers = [b.reader() for b in arrs]
+        dt = A.promote(*[b.dtype for b in arrs])
+        shape = tuple(arrs[0].shape[:ax]) + (len(arrs),) + tuple(arrs[0].shape[ax:])
+
+        def fn(idx):
+            j = idx[ax]
+            rest = tuple(idx[:ax]) + tuple(idx[ax + 1:])
+            if is_conc(j):
+                return A._cast(readers[int(j)](rest), dt)
+            acc = None
+            for k in reversed(range(len(readers))):
+                if acc is None:
+                    acc = (lambda k=k: A._cast(readers[k](rest), dt))
+                else:
+                    acc = (lambda k=k, nxt=acc: ite(sv.cmp("==", j, k), (lambda: A._cast(readers[k](rest), dt)), nxt))
+            return acc()
+        return A.new_arr(shape, fn, dt)
 
     def np_full(self, interp, shape, fill_value, dtype=None, **kw):
         """np.full(shape, v): every element is v (cast to dtype if given)"""
